@@ -232,8 +232,10 @@ theorem flow_frame_roundtrip_rfc_shift (v rest : Bytes) (h : v.length < 4095) :
     ∃ f, flowFrame v = some f ∧ splitFlowWith 8 (f ++ rest) = some ⟨f, v, rest⟩ :=
   split_flow_shift8 v rest h
 
-/-- **FINDING (Flow): with the shift of 16 the decoder has (`FLOW_LENGTH_EXTENDED_SHIFT`), every
-    FlowSpec NLRI of 256 to 4094 bytes that ExaBGP encodes is refused by ExaBGP's decoder.** -/
+/-- **FINDING (Flow), repaired in /repo by "fix: FlowSpec NLRI length field above 255": with a shift
+    of 16 (`FLOW_LENGTH_EXTENDED_SHIFT` before that commit) every FlowSpec NLRI of 256 to 4094 bytes
+    that ExaBGP encodes is refused by ExaBGP's decoder.** The model reads the shift from the generated
+    table, so it follows the code; `corpus/C15/text-flow-big.json` keeps the case. -/
 theorem flow_frame_refused_shift16 (v : Bytes) (h1 : 256 ≤ v.length) (h2 : v.length < 4095) :
     ∃ f, flowFrame v = some f ∧ splitFlowWith 16 f = none :=
   flow_shift16_refuses v h1 h2
